@@ -1250,6 +1250,13 @@ FUNCS = [
          verbatim=[("let canon = |p: &Path| std::fs::canonicalize(p).unwrap_or_else(|_| p.to_path_buf());", ""),
                    ("let mut h = blake3::Hasher::new();", "let mut h : List Nat := []"),
                    ('h.update(b"\\0");', "h := h ++ [0]")]),
+    dict(group="archive", file="src/bin/copia/archive.rs", name="archive_path", sig=None,
+         lean="def archivePathGen (home_var : Option (List Char)) (pair_hash : List Char) : List (List Char) := Id.run do\n"
+              "  -- a path as its components: the HOME value (one opaque component), then the joined names",
+         calls={}, paths={},
+         verbatim=[('let home = std::env::var("HOME").unwrap_or_else(|_| "/tmp".to_string());', 'let home := home_var.getD "/tmp".toList'),
+                   ('PathBuf::from(home) .join(".copia") .join("archive") .join(format!("{pair_hash}.json"))',
+                    'return [home, ".copia".toList, "archive".toList, pair_hash ++ ".json".toList]')]),
     dict(group="archive", file="src/bin/copia/archive.rs", name="load", sig=None, option=True, no_loop=True,
          lean="def archiveLoadGen {A B : Type} (read : Option B) (from_slice : B → Option A) (format_version : A → Nat) (root_pair_hash : A → List Nat)\n"
               "    (expected_pair : List Nat) : Option A := Id.run do\n"
